@@ -187,14 +187,15 @@ class Ctx:
         return r
 
     # --------------------------------------------------------------- Apalache
-    def apalache(self, module_text, name, inv="Inv", init="Init", length=0, timeout=600):
+    def apalache(self, module_text, name, inv="Inv", init="Init", length=0, timeout=600, next_=None):
         d = os.path.join(self.work, "apa%d" % self.tlc_n)
         self.tlc_n += 1
         os.makedirs(d)
         open(os.path.join(d, name + ".tla"), "w").write(module_text)
         t = time.time()
         try:
-            p = subprocess.run(["apalache-mc", "check", "--init=" + init, "--inv=" + inv, "--length=%d" % length, name + ".tla"],
+            p = subprocess.run(["apalache-mc", "check", "--init=" + init, "--inv=" + inv, "--length=%d" % length] +
+                               (["--next=" + next_] if next_ else []) + [name + ".tla"],
                                cwd=d, capture_output=True, text=True, timeout=timeout)
         except subprocess.TimeoutExpired:
             raise Infra("apalache timeout")
@@ -203,7 +204,7 @@ class Ctx:
         err = "The outcome is: Error" in out
         if not ok and not err:
             raise Infra("apalache failed:\n" + tail(out, 30))
-        self.cov.setdefault("apalache_runs", []).append(dict(module=name, ok=ok, wall_s=round(time.time() - t, 1)))
+        self.cov.setdefault("apalache_runs", []).append(dict(module=name, init=init, inv=inv, next=next_ or "Next", length=length, ok=ok, wall_s=round(time.time() - t, 1)))
         shutil.rmtree(d, ignore_errors=True)
         return ok, out
 
